@@ -212,7 +212,7 @@ def forbidden_scan():
 # case shards evaluated by vm_compute
 def run_shards(name, header, shard_bodies, timeout=600):
     """shard_bodies: list of strings, each a complete Gallina fragment that ends by defining
-    `result : list nat` (indices that mismatch).  Returns list of (rc, parsed list or None, raw)."""
+    `result : list Z` (indices that mismatch; property violations are reported as -(index+1)).  Returns list of (rc, parsed list or None, raw)."""
     tmp = tempfile.mkdtemp(prefix="verif_%s_" % name)
     try:
         paths = []
@@ -234,10 +234,10 @@ def run_shards(name, header, shard_bodies, timeout=600):
             parsed = None
             if rc == 0:
                 flat = re.sub(r"\s+", " ", out)
-                m = re.search(r"= (\[.*?\]|nil)\s*: list nat", flat)
+                m = re.search(r"= (\[.*?\]|nil)\s*: list Z", flat)
                 if m:
                     body = m.group(1)
-                    parsed = [] if body in ("[]", "nil") else [int(x) for x in re.findall(r"\d+", body)]
+                    parsed = [] if body in ("[]", "nil") else [int(x) for x in re.findall(r"-?\d+", body)]
             res.append((rc, parsed, out))
         return res
     finally:
